@@ -109,6 +109,57 @@ void wbxml_tree_clb_xml_doctype_decl(void           *ctx,
 }
 
 
+/**
+ * @brief Convert the base64 text cached for the current (binary-flagged) element into a text node
+ * @param tree_ctx The callbacks context
+ * @note Called when the element ends, and when a child element starts: the text read so far
+ *       belongs in front of that child, and base64 text must be decoded item by item
+ *       (decoding stops at the '=' padding of an item)
+ */
+static void flush_binary_content(WBXMLTreeClbCtx *tree_ctx)
+{
+    WBXMLBuffer *content = NULL;
+    WBXMLTreeNode *node = tree_ctx->current;
+    WBXMLError ret = WBXML_OK;
+
+    if (node && node->type == WBXML_TREE_ELEMENT_NODE &&
+        node->name->type == WBXML_VALUE_TOKEN &&
+        node->name->u.token->options & WBXML_TAG_OPTION_BINARY)
+    {
+        if (node->content == NULL)
+        {
+            WBXML_DEBUG((WBXML_PARSER, "    Binary tag: No content => no conversion!"));
+        } else {
+            WBXML_DEBUG((WBXML_PARSER, "    Binary tag: Convert base64 data"));
+            ret = wbxml_buffer_decode_base64(node->content);
+            if (ret != WBXML_OK)
+            {
+                WBXML_DEBUG((WBXML_PARSER, "    Binary tag: Base64 decoder failed!"));
+                tree_ctx->error = ret;
+            } else {
+                /* Add the buffer as a regular string node (since libwbxml doesn't
+                 * offer a way to specify an opaque data node). The WBXML
+                 * encoder is responsible for generating correct opaque data for
+                 * nodes like this.
+                 */
+                if (wbxml_tree_add_text(tree_ctx->tree,
+                                        tree_ctx->current,
+                                        (const WB_UTINY*)wbxml_buffer_get_cstr(node->content),
+                                        wbxml_buffer_len(node->content)) == NULL)
+                {
+                    WBXML_DEBUG((WBXML_PARSER, "    Binary tag: Cannot add base64 decoded node!"));
+                    tree_ctx->error = WBXML_ERROR_INTERNAL;
+                }
+            }
+            /* safe cleanup */
+            content = node->content;
+            node->content = NULL;
+            wbxml_buffer_destroy(content);
+        }
+    }
+}
+
+
 void wbxml_tree_clb_xml_start_element(void           *ctx,
                                       const XML_Char *localName,
                                       const XML_Char **attrs)
@@ -177,6 +228,11 @@ void wbxml_tree_clb_xml_start_element(void           *ctx,
 
 #endif /* WBXML_SUPPORT_SYNCML */
 
+    /* Base64 text of a binary-flagged parent read so far comes before this child */
+    flush_binary_content(tree_ctx);
+    if (tree_ctx->error != WBXML_OK)
+        return;
+
     /* Refuse too deeply nested documents (the tree is walked recursively afterwards) */
     for (parent = tree_ctx->current; parent != NULL; parent = parent->parent)
         depth++;
@@ -202,8 +258,6 @@ void wbxml_tree_clb_xml_end_element(void           *ctx,
                                     const XML_Char *localName)
 {
     WBXMLTreeClbCtx *tree_ctx = (WBXMLTreeClbCtx *) ctx;
-    WBXMLBuffer *content = NULL;
-    WBXMLTreeNode *node = NULL;
     WBXMLError ret = WBXML_OK;
 
     WBXML_DEBUG((WBXML_PARSER, "Expat element end callback ('%s')", localName));
@@ -213,43 +267,7 @@ void wbxml_tree_clb_xml_end_element(void           *ctx,
      * and the data must be decoded in one step.
      * Examples: Microsoft ActiveSync tags ConversationId or MIME
      */
-
-    node = tree_ctx->current;
-    if (node && node->type == WBXML_TREE_ELEMENT_NODE &&
-        node->name->type == WBXML_VALUE_TOKEN &&
-        node->name->u.token->options & WBXML_TAG_OPTION_BINARY)
-    {
-        if (node->content == NULL)
-        {
-            WBXML_DEBUG((WBXML_PARSER, "    Binary tag: No content => no conversion!"));
-        } else {
-            WBXML_DEBUG((WBXML_PARSER, "    Binary tag: Convert base64 data"));
-            ret = wbxml_buffer_decode_base64(node->content);
-            if (ret != WBXML_OK)
-            {
-                WBXML_DEBUG((WBXML_PARSER, "    Binary tag: Base64 decoder failed!"));
-                tree_ctx->error = ret;
-            } else {
-                /* Add the buffer as a regular string node (since libwbxml doesn't
-                 * offer a way to specify an opaque data node). The WBXML
-                 * encoder is responsible for generating correct opaque data for
-                 * nodes like this.
-                 */
-                if (wbxml_tree_add_text(tree_ctx->tree,
-                                        tree_ctx->current,
-                                        (const WB_UTINY*)wbxml_buffer_get_cstr(node->content),
-                                        wbxml_buffer_len(node->content)) == NULL)
-                {
-                    WBXML_DEBUG((WBXML_PARSER, "    Binary tag: Cannot add base64 decoded node!"));
-                    tree_ctx->error = WBXML_ERROR_INTERNAL;
-                }
-            }
-            /* safe cleanup */
-            content = node->content;
-            node->content = NULL;
-            wbxml_buffer_destroy(content);
-        }
-    }
+    flush_binary_content(tree_ctx);
 
     if (tree_ctx->expat_utf16) {
         /** @todo Convert from UTF-16 to UTF-8 */
